@@ -48,13 +48,29 @@ def project(raw, napp):
     out.append('.')
     return out
 
+def enqueuer_order(raw):
+    """program order of the enqueuing side of the helper handshake (Futex/CrFutex.v: enqueue ; barrier ; look at the futex word ; [store 0 ; wake]): inside call_rcu() the
+    helper's futex word is only looked at after the tail exchange that enqueues the callback"""
+    fw = set(m.group(1) for m in re.finditer(r'^\d+ (?:futex_wait|futex_wake|dec) (\S+)', raw, flags=re.M))
+    inop = {}
+    for l in raw.splitlines():
+        p = l.split()
+        if len(p) < 3 or not p[0].isdigit(): continue
+        t, k = p[0], p[1]
+        if k == 'call' and p[2] == 'call_rcu': inop[t] = False
+        elif k == 'ret' and p[2] == 'call_rcu': inop.pop(t, None)
+        elif t in inop and k == 'xchg': inop[t] = True
+        elif t in inop and k == 'load' and p[2] in fw and not inop[t]:
+            return 'thread %s looks at the helper\'s futex word %s inside call_rcu() before it has enqueued its callback: a helper that goes to sleep between that look and the enqueue is not woken' % (t, p[2])
+    return None
+
 def oracle(prog, s, cl, raw):
     ev = G.events(raw)
     m = re.search(r'^(\d+) UAF (\S+)', raw, flags=re.M)
     if m: return 'thread %s accessed %s: a call_rcu_data structure that had already been released (helper freed under a caller that had selected it)' % (m.group(1), m.group(2))
     if 'DEADLOCK' in raw: return 'stuck state: an application thread is blocked for ever (rcu_barrier / call_rcu_data_free never returns)'
     if 'STEP LIMIT' in raw: return 'live-lock: step limit reached'
-    so = oracles.sleeper_order(raw)
+    so = oracles.sleeper_order(raw) or oracles.waker_order(raw) or enqueuer_order(raw)
     if so: return so
     callidx, retcall, cbcall, cbret = {}, {}, {}, {}
     sections = []; open_ = {}; depth = {}; bars = []; bo = {}
@@ -101,15 +117,21 @@ def handshake_cases(ctx):
         announcement that it is going to sleep -, the caller completes call_rcu(), the helper goes on: the callback must be invoked without any further API call;
     (2) the same at the helper's second and later looks at the queue (first callback completely processed before the second call_rcu());
     (3) rcu_barrier(): the caller frozen k steps into the barrier - between its look at the countdown and its announcement that it is going to sleep - while the helper runs the
-        marker to completion: the barrier must return."""
+        marker to completion: the barrier must return;
+    (4) see below."""
     out = []
     q = ctx.quick()
-    for k in range(8, 70, 3 if q else 1):
-        for j in range(0, 34, 2 if q else 1):
+    for k in (list(range(8, 26)) + list(range(26, 70, 3))) if q else range(8, 70):      # every point of call_rcu() itself, coarser inside the helper creation that follows for later calls
+        for j in range(0, 64, 2 if q else 1):      # up to and beyond the helper's first FUTEX_WAIT (about 46 of its steps)
             out.append(('C0', '0a' * k + '1b' * j + '>0' + '1b' * 300))
     for j in range(0, 200, 2 if q else 1):
         out.append(('C0C1', '>0' + '1b' * j + '>0' + '1b' * 300))
         out.append(('C0C1/()', '>0' + '2c' * j + '>0' + '2c' * 300))
+    # (4) the window right behind a FUTEX_WAKE of the helper ('@h': the helper runs up to and including its next wake-up call): the barrier caller, asleep on the completion
+    #     word, is woken and re-checks the word at once, before the helper takes another step
+    for k in (120, 160, 200, 260):
+        out.append(('C0B', '>0' + '0a' * k + '@1' + '0a' * 40 + '1b' * 300 + '0a' * 100))
+        out.append(('C0B/()', '>0' + '0a' * k + '@2' + '0a' * 40 + '2c' * 300 + '0a' * 100))
     for k in range(0, 110, 1):
         for pre in ((150, 40) if q else (150, 60, 40, 25)):
             out.append(('C0B', '>0' + '1b' * pre + '0a' * k + '1b' * 300 + '>0'))
